@@ -152,6 +152,85 @@ def run_prep(case: dict) -> Outcome:
     return out
 
 
+# ---------------------------------------------------------------- large back-offs through each broker's requeue
+
+
+@st.composite
+def large_case(draw, broker):
+    days = draw(st.one_of(st.just(0), st.integers(0, 3), st.integers(0, 4000)))
+    rest_us = draw(st.one_of(st.integers(0, 6_000_000), st.integers(0, 86_399_999_999)))
+    return {"broker": broker, "seed": draw(st.integers(0, 999)), "backoff_us": days * 86_400_000_000 + rest_us,
+            "phase_us": draw(st.integers(0, 999_999)), "tried": draw(st.integers(0, 3)), "prio": draw(st.sampled_from([0, 5, 9]))}
+
+
+async def _large(loop, case, out: Outcome):
+    import asyncio
+
+    from repid import MessageCategory
+    from repid.data._key import RoutingKey
+    from repid.data._parameters import Parameters, RetriesProperties
+
+    from harness.brokers import Env, reset_globals
+
+    reset_globals()
+    env = Env(case["broker"], loop, case["seed"])
+    conn = env.connection("c0", None, buckets=False)
+    await conn.connect()
+    b = conn.message_broker
+    await b.queue_declare("qr")
+    await asyncio.sleep(case["phase_us"] / 1e6)
+    key = RoutingKey(topic="t0", queue="qr", priority=case["prio"], id_="r1")
+    params = Parameters(retries=RetriesProperties(max_amount=5, already_tried=case["tried"]))
+    await b.enqueue(key, "p", params)
+    cons = b.get_consumer("qr", None, None, MessageCategory.NORMAL)
+    await cons.start()
+    try:
+        k, _p, prm = await asyncio.wait_for(cons.consume(), timeout=3.0)
+    except asyncio.TimeoutError:
+        out.inconclusive = True
+        await cons.finish()
+        return
+    backoff = timedelta(microseconds=case["backoff_us"])
+    t_fail = loop.time()
+    new = prm._prepare_retry(backoff)
+    await b.requeue(k, "p", new)
+    due = t_fail + case["backoff_us"] / 1e6
+    horizon = 8.0
+    got_at = None
+    try:
+        k2, _p2, prm2 = await asyncio.wait_for(cons.consume(), timeout=horizon)
+        got_at = loop.time()
+        if prm2.retries.already_tried != case["tried"] + 1:
+            out.v("retry-counter", f"redelivered with already_tried={prm2.retries.already_tried}, expected {case['tried'] + 1}")
+        await b.ack(k2)
+    except asyncio.TimeoutError:
+        pass
+    await cons.finish()
+    if got_at is not None and got_at < due - RES:
+        out.v("retry-delivered-early", f"retry with back-off {backoff} (failure at {t_fail:.6f}, due {due:.6f}) was delivered at "
+              f"{got_at:.6f}, {due - got_at:.3f}s early", broker=case["broker"], over_a_day=case["backoff_us"] >= 86_400_000_000)
+    if got_at is None and due < t_fail + horizon - 3.0:
+        out.v("retry-not-delivered", f"retry with back-off {backoff} due at {due:.6f} was not delivered by {loop.time():.6f}",
+              broker=case["broker"])
+    if got_at is None and due > loop.time() + 1.0:
+        places = env.probe().get("r1", [])
+        if [p.kind for p in places] != ["delayed"]:
+            out.v("retry-not-delayed", f"retry due at {due:.6f} should wait in the delayed category, found {[p.short() for p in places]}",
+                  broker=case["broker"])
+    out.nontrivial = case["backoff_us"] > 0
+    out.cls("broker-" + case["broker"], "over-a-day" if case["backoff_us"] >= 86_400_000_000 else "under-a-day")
+
+
+def run_large(case: dict) -> Outcome:
+    out = Outcome()
+    try:
+        vclock.run(lambda loop: _large(loop, case, out), max_steps=300_000)
+    except (vclock.StepLimit, vclock.Deadlock) as e:
+        out.inconclusive = True
+        out.info["watchdog"] = str(e)
+    return out
+
+
 def _s(brokers):
     return lambda: retry_case(brokers)
 
@@ -176,5 +255,8 @@ CHECK = Check(
         SubCheck("redis", _s(("redis",)), run, quick=40, thorough=800),
         SubCheck("amqp", _s(("amqp",)), run, quick=40, thorough=800),
         SubCheck("prepare_retry", prep_case, run_prep, quick=400, thorough=10000),
+        SubCheck("large-mem", lambda: large_case("mem"), run_large, quick=8, thorough=300),
+        SubCheck("large-redis", lambda: large_case("redis"), run_large, quick=25, thorough=800),
+        SubCheck("large-amqp", lambda: large_case("amqp"), run_large, quick=40, thorough=1200),
     ],
 )
